@@ -154,7 +154,7 @@ func runProperty(opt options) int {
 				sol.CrossEvery = 499
 			}
 			for i := range ch {
-				if i%5 == 0 {
+				if i%5 == 0 || grid.validateN > 0 {
 					cases[i].WantModel = true
 				}
 				if cases[i].MaxWallS == 0 {
